@@ -2,6 +2,7 @@ package inproc
 
 import (
 	"fmt"
+	"reflect"
 	"testing"
 
 	"github.com/cube2222/octosql/octosql"
@@ -336,13 +337,60 @@ func enumTypes() []octosql.Type {
 	return all
 }
 
+// c10Alts: the alternatives of a union in the order given (distinct TypeIDs, no union, no Any) - NOT sorted. The planner
+// builds such unions by hand (logical.TypecheckPossiblyNullableStruct appends NULL last) and plugins send theirs as they are.
+type c10Alts struct {
+	Alts []gen.JT `json:"alts"`
+}
+
+func c10UnorderedProp(c c10Alts) ev.Outcome {
+	mk := func() octosql.Type {
+		t := octosql.Type{TypeID: octosql.TypeIDUnion}
+		for _, a := range c.Alts {
+			t.Union.Alternatives = append(t.Union.Alternatives, a.Oct())
+		}
+		return t
+	}
+	t, orig := mk(), mk()
+	sorted := true
+	for i := 1; i < len(t.Union.Alternatives); i++ {
+		if t.Union.Alternatives[i-1].TypeID >= t.Union.Alternatives[i].TypeID {
+			sorted = false
+		}
+	}
+	o := ev.Outcome{NonTrivial: !sorted && hasNullAlt(t), Classes: []string{fmt.Sprintf("unordered_union_%d_alternatives", len(c.Alts))}}
+	if !sorted {
+		o.Classes = append(o.Classes, "union_not_sorted")
+	}
+	if t.Is(t) != octosql.TypeRelationIs {
+		return ev.Fail("Is is not reflexive on %s", t)
+	}
+	nn := octosql.NonNullable(t)
+	if !reflect.DeepEqual(t, orig) {
+		return ev.Fail("NonNullable modified its argument: %s became %s", orig, t)
+	}
+	if nn.TypeID == octosql.TypeIDNull || hasNullAlt(nn) || octosql.Null.Is(nn) == octosql.TypeRelationIs {
+		return ev.Fail("NonNullable(%s)=%s still admits NULL", t, nn)
+	}
+	if nn.Is(t) != octosql.TypeRelationIs {
+		return ev.Fail("NonNullable(%s)=%s is not contained in its argument", t, nn)
+	}
+	for _, a := range orig.Union.Alternatives {
+		if a.TypeID != octosql.TypeIDNull && a.Is(nn) != octosql.TypeRelationIs {
+			return ev.Fail("NonNullable removed more than NULL: alternative %s of %s is not admitted by %s", a, t, nn)
+		}
+	}
+	return o
+}
+
 func TestC10(t *testing.T) {
 	r := ev.New("C10", "exploration",
 		"pairs: every ordered pair of the enumerated types with <=3 nodes (exhaustive part) plus rapid pairs of nested normal-form types (depth<=3); "+
 			"values: rapid values nested to depth 3 checked against their own Type(). Laws: Is reflexive; TypeSum upper bound, commutative, idempotent (up to Equals); "+
 			"TypeIntersection contained in both; NonNullable removes exactly NULL (NonNullable(NULL)=NULL is documented and skipped). "+
+			"unordered_unions: unions given by their alternatives in any order (all ordered selections of 2 and 3 distinct-TypeID alternatives from a pool of 16 types, complete; rapid selections of 2-6): Is reflexive, NonNullable leaves no NULL, keeps every other alternative, invents nothing and does not modify its argument (non-trivial: not sorted and has NULL). "+
 			"non-trivial pair: different TypeIDs or a composite (list/struct/tuple/union) on either side; non-trivial value: composite. distinct = canonical JSON of the case",
-		"unions are in octosql's normal form (distinct TypeIDs, sorted, not nested, >=2 alternatives) - the only form the planner builds")
+		"in the pair laws unions are in octosql's normal form (distinct TypeIDs, sorted, not nested, >=2 alternatives), the form TypeSum builds; unions assembled by hand (any order of alternatives) are covered by unordered_unions for the order-independent laws")
 	types := enumTypes()
 	r.SetExtra("enumerated_types", len(types))
 	pairProp := c10PairProp(r)
@@ -366,6 +414,65 @@ func TestC10(t *testing.T) {
 		}
 		return c10Pair{a, b}
 	}, pairProp)
+	// unions whose alternatives are not in TypeSum's order: all ordered selections of 2 and 3 alternatives out of a pool
+	var pool []gen.JT
+	for _, k := range []string{"null", "int", "float", "bool", "str", "time", "dur"} {
+		pool = append(pool, gen.JT{K: k})
+	}
+	for _, x := range types {
+		if (x.TypeID == octosql.TypeIDList || x.TypeID == octosql.TypeIDStruct || x.TypeID == octosql.TypeIDTuple) && len(pool) < 7+9 {
+			pool = append(pool, gen.TypeFromOct(x))
+		}
+	}
+	distinctIDs := func(alts []gen.JT) bool {
+		seen := map[octosql.TypeID]bool{}
+		for _, a := range alts {
+			id := a.Oct().TypeID
+			if seen[id] {
+				return false
+			}
+			seen[id] = true
+		}
+		return true
+	}
+	ev.Enumerate(t, r, "unordered_unions", func(yield func(c10Alts) bool) {
+		for _, a := range pool {
+			for _, b := range pool {
+				if distinctIDs([]gen.JT{a, b}) && !yield(c10Alts{[]gen.JT{a, b}}) {
+					return
+				}
+				for _, c := range pool {
+					if distinctIDs([]gen.JT{a, b, c}) && !yield(c10Alts{[]gen.JT{a, b, c}}) {
+						return
+					}
+				}
+			}
+		}
+	}, c10UnorderedProp)
+	ev.Check(t, r, "unordered_unions_random", ev.N(60000, 1000000), func(t *rapid.T) c10Alts {
+		n := rapid.IntRange(2, 6).Draw(t, "n")
+		var alts []gen.JT
+		seen := map[octosql.TypeID]bool{}
+		for len(alts) < n {
+			var a gen.JT
+			if rapid.IntRange(0, 3).Draw(t, "null") == 0 {
+				a = gen.JT{K: "null"}
+			} else {
+				a = gen.NormType(t, 2, "alt")
+			}
+			o := a.Oct()
+			if o.TypeID == octosql.TypeIDUnion || o.TypeID == octosql.TypeIDAny || seen[o.TypeID] {
+				n--
+				continue
+			}
+			seen[o.TypeID] = true
+			alts = append(alts, a)
+		}
+		if len(alts) < 2 {
+			alts = []gen.JT{{K: "int"}, {K: "null"}}
+		}
+		return c10Alts{alts}
+	}, c10UnorderedProp)
 	ev.Check(t, r, "value_self_type", ev.N(400000, 8000000), func(t *rapid.T) c10Val {
 		return c10Val{gen.Value(t, 3, "v")}
 	}, c10ValProp(r))
